@@ -31,6 +31,10 @@ def check(ctx, run):
         if e_ in ctx.facts.bodies:
             ba.analyse_entry(ctx.facts.bodies[e_].path)
     buffers.r17_2(ctx, run, ba, rule='R07.10/R17.2', floor=None)
+    from rules import units as _units
+    _units.check(ctx, run, 'R07.11/R05.15', only=lambda p_: p_.startswith(('jsonpath::selector', 'functions::')))
+    editing.r06_17(ctx, run, rule='R07.12/R06.17')
+    editing.r06_18(ctx, run, rule='R07.13/R06.18')
     accessors.name_variants_alike(ctx, run, 'R07.7', lambda p_: p_.startswith('functions::'))
     from rules import layout as _layout
     _layout.r01_2(ctx, run, rule='R07.9/R01.2')
